@@ -52,6 +52,15 @@ void svt_remove_mem_entry(void* ptr, EbPtrType type);
 
 #endif //DEBUG_MEMORY_USAGE
 
+#if defined(SVT_AV1_VERIF) && !defined(DEBUG_MEMORY_USAGE)
+/* verification build: count live library resources without the debug tracker */
+#include "EbVerifHooks.h"
+#undef EB_ADD_MEM_ENTRY
+#undef EB_REMOVE_MEM_ENTRY
+#define EB_ADD_MEM_ENTRY(p, type, count) svt_verif_res_add(p, type, count)
+#define EB_REMOVE_MEM_ENTRY(p, type) svt_verif_res_remove(p, type);
+#endif
+
 #define EB_NO_THROW_ADD_MEM(p, size, type)            \
     do {                                              \
         if (!p)                                       \
